@@ -20,11 +20,11 @@ TRUSTED_COMMON = [
 
 
 def c01(ctx, rep, tier):
-    RS.check_decode(ctx, rep, 'C01', 'set2', REPO)
+    RS.check_decode(ctx, rep, 'C01', 'set2', ctx.facts.get('_repo') or REPO)
 
 
 def c02(ctx, rep, tier):
-    RS.check_decode(ctx, rep, 'C02', 'set1', REPO)
+    RS.check_decode(ctx, rep, 'C02', 'set1', ctx.facts.get('_repo') or REPO)
 
 
 def c07(ctx, rep, tier):
@@ -131,6 +131,7 @@ def mutation_adequacy(prop, fn):
     to a scratch COPY of /repo's working tree, re-extract, re-run the rule, record whether it fires."""
     import glob, shutil, subprocess, tempfile
     patches = sorted(glob.glob(os.path.join(VERIF, 'seeded', prop + '-m*', 'patch.diff'))) + \
+        sorted(glob.glob(os.path.join(VERIF, 'seeded2', prop + '-*', 'patch.diff'))) + \
         sorted(glob.glob(os.path.join(VERIF, 'selftest', prop.lower() + '_*.diff')))
     out = {'applied': 0, 'detected': 0, 'not_applicable_to_this_tree': 0, 'details': []}
     for pt in patches:
@@ -138,6 +139,9 @@ def mutation_adequacy(prop, fn):
         try:
             dst = os.path.join(tmp, 'repo')
             shutil.copytree(REPO, dst, ignore=shutil.ignore_patterns('target', '.git'))
+            base = os.path.join(os.path.dirname(pt), 'base.diff')
+            if os.path.exists(base):     # mutant of a refactored tree: apply the refactoring first
+                subprocess.run(['git', 'apply', '--whitespace=nowarn', base], cwd=dst, capture_output=True, text=True)
             a = subprocess.run(['git', 'apply', '--whitespace=nowarn', pt], cwd=dst, capture_output=True, text=True)
             name = os.path.relpath(pt, VERIF)
             if a.returncode != 0:
@@ -207,10 +211,17 @@ def run(prop, tier):
             b = sorted(k for k, _ in rep.findings if not k.startswith('UNDECIDED') or '[rel MIR]' not in k)
             b = sorted(set(k for k in b))
             same = set(a) == set(k for k in b)
+            if any(k.startswith('UNDECIDED') for k in a):
+                # the models alone cannot decide this tree (it uses library functions that have no hand model):
+                # the cross-check does not apply
+                rep.extra['models_vs_library_mir'] = {'comparable': False, 'reason': [k for k in a if k.startswith('UNDECIDED')][:2]}
+                raise StopIteration
             rep.ob('callee models agree with library MIR (verdict set)', 1, 1 if same else 0)
             rep.extra['models_vs_library_mir'] = {'same_findings': same, 'obligations_models_only': sum(o[0] for o in sub.obligations.values())}
             if not same:
                 rep.finding('ENGINE model-disagreement', 'verdicts differ between library-MIR inlining and callee models: %s vs %s' % (b[:3], a[:3]))
+        except StopIteration:
+            pass
         except Exception as e:
             rep.note('models-only replay skipped: %r' % (e,))
         try:
